@@ -80,7 +80,7 @@ def lower_type(b):
 
 
 def has_solution(kind, bounds):
-    lowers = [ty(b["t"]) for b in bounds if b["dir"] in ("lower", "list")]
+    lowers = [ty(b["t"]) for b in bounds if b["dir"] in ("lower", "list", "proto")]
     uppers = [ty(b["t"]) for b in bounds if b["dir"] == "upper"]
     if kind == "bound":
         uppers.append(ty("A"))
@@ -106,7 +106,7 @@ def check_solution(kind, bounds, sigma):
         return None
     for b in bounds:
         b_ty = ty(b["t"])
-        if b["dir"] in ("lower", "list"):
+        if b["dir"] in ("lower", "list", "proto"):
             if included(b_ty, s_ty) is False:
                 out.append(("lower-not-included", f"lower bound {b['t']} is not included in the solution {sigma}"))
         else:
@@ -130,6 +130,9 @@ def param_decl(tv, b, i):
         return f"a{i}: {tv}"
     if b["dir"] == "list":
         return f"a{i}: list[{tv}]"
+    if b["dir"] == "proto":
+        # a generic structural protocol: list[t] is a Pops[t]
+        return f"a{i}: Pops[{tv}]"
     return f"a{i}: Callable[[{tv}], None]"
 
 
@@ -138,6 +141,8 @@ def arg_expr(b):
         return f"p_{ident(b['t'])}"
     if b["dir"] == "list":
         return f"pl_{ident(b['t'])}"
+    if b["dir"] == "proto":
+        return f"pb_{ident(b['t'])}"
     return f"f_{ident(b['t'])}"
 
 
@@ -145,6 +150,8 @@ def build_module(cases, max_perms=6):
     lines = list(HEADER) + TV_DECLS
     for t in VOCAB:
         lines.append(f"def f_{ident(t)}(x: {t}) -> None: ...")
+        # a class that matches the generic protocol Pops[t] structurally
+        lines += [f"class Box_{ident(t)}:", f"    def pop(self) -> {t}: ..."]
     plan = []
     for ci, (kind, bounds) in enumerate(cases):
         tv = TVS[kind]
@@ -157,7 +164,8 @@ def build_module(cases, max_perms=6):
         lines.append(f"def v{ci}({params0}) -> None: ...")
         lines.append(f"def w{ci}({params0}) -> int: ...")
         plan.append(perms)
-    params = ", ".join([f"p_{ident(t)}: {t}" for t in VOCAB] + [f"pl_{ident(t)}: list[{t}]" for t in VOCAB])
+    params = ", ".join([f"p_{ident(t)}: {t}" for t in VOCAB] + [f"pl_{ident(t)}: list[{t}]" for t in VOCAB]
+                       + [f"pb_{ident(t)}: Box_{ident(t)}" for t in VOCAB])
     lines.append(f"def caller({params}) -> None:")
     lmap = {}
     for ci, (kind, bounds) in enumerate(cases):
@@ -255,7 +263,7 @@ def _judge(kind, bounds, obs):
 
 
 def fmt(bounds):
-    return "[" + ", ".join({"lower": "T >= ", "list": "list[T] >= list of ", "upper": "T <= "}[b["dir"]] + b["t"] for b in bounds) + "]"
+    return "[" + ", ".join({"lower": "T >= ", "list": "list[T] >= list of ", "proto": "Pops[T] >= Box of ", "upper": "T <= "}[b["dir"]] + b["t"] for b in bounds) + "]"
 
 
 def nontrivial(kind, bounds):
@@ -322,7 +330,7 @@ def api_check(kind, bounds, ctx):
 
 def bound_strategy():
     return st.builds(lambda d, t: {"dir": d, "t": t},
-                     st.sampled_from(["lower", "lower", "upper", "list"]), st.sampled_from(VOCAB))
+                     st.sampled_from(["lower", "lower", "upper", "list", "proto", "proto"]), st.sampled_from(VOCAB))
 
 
 def case_strategy():
@@ -357,6 +365,16 @@ def run_shard(spec):
                                 "diagnosed" if all(o["diagnosed"] for o in out.get(ci, [])) else "accepted"],
                          sample={"kind": kind, "bounds": fmt(bounds),
                                  "observed": [(o["style"], o["perm"], o["diagnosed"], str(o["sigma"])) for o in out.get(ci, [])][:3]})
+                # the verdict on a call must not depend on the other calls of the module (matches against generic
+                # protocols are remembered per Checker): a few protocol cases per module are re-run alone
+                if any(b["dir"] == "proto" for b in bounds) and ci % 4 == 0:
+                    alone, _ = run_cases([(kind, bounds)], sut.new_checker())
+                    a = sorted((o["style"], o["perm"], o["diagnosed"]) for o in alone.get(0, []))
+                    b_ = sorted((o["style"], o["perm"], o["diagnosed"]) for o in out.get(ci, []))
+                    if a != b_:
+                        col.fail(f"neighbour-dependent-verdict|{kind}|{'+'.join(sorted(x['dir'] for x in bounds))}",
+                                 f"{kind} T with bounds {fmt(bounds)}: verdicts per spelling {b_} inside a module with 11 other generic calls, "
+                                 f"{a} when the module holds only this call", {"kind": kind, "bounds": bounds, "neighbours": [list(c) for c in cases]})
                 for key, what in fails:
                     if col.is_known(key) or key in col.seen_keys:
                         col.fail(key, what, {"kind": kind, "bounds": bounds})
@@ -395,6 +413,19 @@ def run_shard(spec):
 
 
 def replay_all(case):
+    if case.get("neighbours"):
+        cases = [(k, b) for k, b in case["neighbours"]]
+        ci = next((i for i, (k, b) in enumerate(cases) if k == case["kind"] and b == case["bounds"]), None)
+        if ci is None:
+            return []
+        batch, _ = run_cases(cases, sut.new_checker())
+        alone, _ = run_cases([cases[ci]], sut.new_checker())
+        a = sorted((o["style"], o["perm"], o["diagnosed"]) for o in alone.get(0, []))
+        b_ = sorted((o["style"], o["perm"], o["diagnosed"]) for o in batch.get(ci, []))
+        if a != b_:
+            return [{"key": f"neighbour-dependent-verdict|{case['kind']}|{'+'.join(sorted(x['dir'] for x in case['bounds']))}",
+                     "what": f"verdicts per spelling {b_} next to the other calls, {a} alone", "case": case}]
+        return []
     out, _ = run_cases([(case["kind"], case["bounds"])], sut.new_checker())
     return [{"key": k, "what": w, "case": case} for k, w in judge(case["kind"], case["bounds"], out.get(0, []))]
 
